@@ -3,6 +3,7 @@ CHECK = {
     "pkg": "header", "files": ["header/c47_test.go"], "run": "^TestC47",
     "quick": {"scale": 1, "shards": 1, "timeout": 300},
     "thorough": {"scale": 10, "shards": 8, "timeout": 900, "fuzz": [{"target": "FuzzC47", "seconds": 45}]},
+    "technique": "rapid round trip (encode, parse back) against the documented bit layout, differential of Parse against an independent decoder over byte strings and capacity-padded sub-slices, exhaustive type/subtype name table; native fuzzing of Parse in the thorough tier",
     "rule": "rapid draws of (version,type,subtype over 0..255, index/counter full range with edge values) encoded "
             "and parsed back against the documented bit layout; byte strings of length 0..64 parsed against an "
             "independent decode with a trailing-bytes metamorphic check; the 256x256 type/subtype table enumerated. "
